@@ -12,6 +12,7 @@ VAL = CLS + "._validate_input"
 def check(ctx):
     ctx.guard(r171_172, ctx)
     ctx.guard(r173, ctx)
+    ctx.guard(r176_setup_once, ctx)
     ctx.guard(r174, ctx)
     ctx.guard(_shared_c17, ctx)
 
@@ -115,6 +116,13 @@ def r171_172(ctx):
         # callbacks are skipped on the iteration that exhausts max_iter: pc carries the negated stop test
         neg_stop = A.C._not(A.C.canon(maxret[0].pc[-1])) if maxret else None
         okc = okc and any(A.C.canon(l) is neg_stop for l in c.pc)
+        # the only other guard is "there are callbacks"
+        have = A.at(t, "self.callbacks_")
+        present = {A.C.canon(have), A.C.canon(mk("cmp", "is not", have, NONE)),
+                   A.C.canon(A.spec("len(c) > 0", {"c": have, "len": glob("builtins.len")}))}
+        tl = {A.C.canon(l) for l in t.pc}
+        extra = [A.C.canon(l) for l in c.pc if l.op != "inloop" and A.C.canon(l) not in tl and A.C.canon(l) is not neg_stop]
+        okc = okc and all(g in present for g in extra)
     ctx.ob("R17.2", fq, cbs[0].node if cbs else None, okc, "after the max_iter test, every callback in callbacks_ is called "
            "once with (self, step=n_iter_)", construct="callback invocation")
     stopret = [e for e in rets if cbs and e.seq > cbs[0].seq and e.data["value"] is r.self_term]
@@ -128,6 +136,11 @@ def r171_172(ctx):
         acc = [e for e in ev_in if e.kind == "store" and e.data.get("tkind") == "name" and e.data["name"] == fname and len(e.loops) == 3]
         oks = oks and len(acc) == 1 and A.C.canon(acc[0].data["value"]).op == "or" and contains(
             acc[0].data["value"], lambda s: s is cbs[0].data["result"])
+        # the flag starts False in every step and the exit is taken on the flag itself (not its negation)
+        if oks:
+            inits = [e for e in ev_in if e.kind == "store" and e.data.get("tkind") == "name" and e.data["name"] == fname and len(e.loops) == 2
+                     and e.seq < cbs[0].seq]
+            oks = len(inits) == 1 and inits[0].data["value"] is FALSE and A.C.canon(lit) is A.C.canon(flag[0])
     ctx.ob("R17.2", fq, stopret[0].node if stopret else None, oks, "fit returns self as soon as a callback of the current step "
            "returned a true value", construct="callback stop")
     # callbacks_ is a list of callables (from __setup)
@@ -155,11 +168,75 @@ def r173(ctx):
               and dominates(v[0], ts[0]))
     ctx.ob("R17.3", r.func, ts[0].node if ts else None, ok, "one train_step on the validated (X, y, A), outside any loop",
            construct="partial_fit single step")
+    if v:
+        # the networks are (re)initialised by the first partial_fit only: the flag handed to _validate_input is
+        # `not hasattr(self, "classes_")`, evaluated before partial_fit itself assigns classes_
+        flag = arg(v[0], 3, "reinitialize")
+        has = [e for e in r.events if e.kind == "call" and e.data.get("callee") == "builtins.hasattr" and e.data["args"]
+               and e.data["args"][0] is r.self_term and e.data["args"][1] is const("classes_") and e.func == r.func]
+        st_ = [e for e in r.events if e.kind == "store" and e.data.get("tkind") == "attr" and e.data["attr"] == "classes_" and e.func == r.func]
+        okf = flag is not None and len(has) == 1 and A.C.canon(flag) is A.C._not(A.C.canon(has[0].data["result"])) \
+            and all(has[0].seq < e.seq for e in st_)
+        ctx.ob("R17.3", r.func, v[0].node, okf, "the networks are initialised on the first partial_fit only (flag = not hasattr(self, "
+               "'classes_'), read before classes_ is assigned)" if okf else "the initialisation flag of partial_fit is not `not "
+               "hasattr(self, 'classes_')`: a later partial_fit re-initialises the networks, or the first one does not",
+               construct="partial_fit initialisation flag")
+        want_g = A.C.canon(mk("and", (A.C._not(A.C.canon(has[0].data["result"])), mk("cmp", "is not", r.params["classes"], NONE)))) if has else None
+        okg = bool(st_) and all(e.data["value"] is r.params["classes"] and [A.C.canon(l) for l in pc_literals(e.pc)] in (
+            [want_g], [A.C._not(A.C.canon(has[0].data["result"])), A.C.canon(mk("cmp", "is not", r.params["classes"], NONE))]) for e in st_)
+        ctx.ob("R17.3", r.func, st_[0].node if st_ else None, okg, "classes_ is taken from the classes argument on the first call only",
+               construct="partial_fit classes_")
     # both entry points drive the same back-end object
     rf = A.run(CLS + ".fit", cls_ctx=CLS)
     tf = _train_steps(rf)
     same = bool(ts) and bool(tf) and show(ts[0].data["fterm"].args[0], maxdepth=3) == show(tf[0].data["fterm"].args[0], maxdepth=3)
     ctx.ob("R17.3", r.func, None, same, "fit and partial_fit step the same backendEngine_", construct="same engine")
+
+
+def r176_setup_once(ctx):
+    ctx.rule("R17.6", "_validate_input builds the networks (__setup) exactly when the estimator is not fitted yet or the caller asks for "
+                      "re-initialisation (fit: always; partial_fit: first call only), and records classes_ under the same kind of "
+                      "test - so a partial_fit sequence trains one pair of networks from start to end")
+    setup = CLS + ".__setup"
+    A = Analysis(ctx, no_inline=[setup])
+    r = A.run(VAL, cls_ctx=CLS)
+    fq = r.func
+    P = r.params
+    cs = calls_to(r, setup)
+    hs = [e for e in r.events if e.kind == "handler" and e.func == fq]
+    cif = [e for e in r.events if e.kind == "call" and e.data.get("callee") == "sklearn.utils.validation.check_is_fitted" and e.func == fq
+           and e.data["args"] and e.data["args"][0] is r.self_term]
+    ok = len(cs) == 1 and len(cif) >= 1
+    why = ""
+    if ok:
+        lits = [l for l in pc_literals(cs[0].pc)]
+        g = lits[-1] if lits else None
+        # accepted guard: (not <fitted>) or reinitialize, with <fitted> := no NotFittedError from check_is_fitted(self)
+        only_flag = g is P["reinitialize"]  # also sound for this property: fit and the first partial_fit pass True
+        ok = only_flag or (g is not None and g.op == "or" and len(g.args[0]) == 2 and P["reinitialize"] in g.args[0])
+        if ok and not only_flag:
+            other = [x for x in g.args[0] if x is not P["reinitialize"]][0]
+            ok = other.op == "not" and other.args[0].op == "ite" and other.args[0].args[0].op == "exc" and \
+                other.args[0].args[1] is FALSE and other.args[0].args[2] is TRUE and \
+                "NotFittedError" in show(other.args[0].args[0], maxdepth=2)
+        if not ok:
+            why = show(g, maxdepth=4)[:120] if g is not None else "unconditional"
+        ok = ok and arg(cs[0], 0) is not None and contains(arg(cs[0], 0), lambda s_: s_ is P["X"])
+    ctx.ob("R17.6", fq, cs[0].node if cs else None, ok, "__setup runs exactly when not fitted or reinitialize is set" if ok else
+           f"__setup is guarded by {why or 'another test'}: the networks are re-built by a later partial_fit (or never built)",
+           construct="setup guard")
+    st = [e for e in r.events if e.kind == "store" and e.data.get("tkind") == "attr" and e.data["attr"] == "classes_" and e.func == fq]
+    has = mk("call", glob("builtins.hasattr"), (r.self_term, const("classes_")), ())
+    want = A.C.canon(mk("or", (P["reinitialize"], mk("not", has))))
+    okc = len(st) == 1 and [A.C.canon(l) for l in pc_literals(st[0].pc)][-1:] == [want]
+    ctx.ob("R17.6", fq, st[0].node if st else None, okc, "classes_ is (re)computed exactly when reinitialize is set or none is "
+           "recorded yet", construct="classes_ guard")
+    # fit asks for re-initialisation
+    Af = Analysis(ctx, no_inline=[VAL])
+    rf = Af.run(CLS + ".fit", cls_ctx=CLS)
+    v = calls_to(rf, VAL)
+    okf = len(v) == 1 and (kw(v[0], "reinitialize") is TRUE or arg(v[0], 3) is TRUE)
+    ctx.ob("R17.6", rf.func, v[0].node if v else None, okf, "fit always re-initialises (reinitialize=True)", construct="fit reinitialises")
 
 
 def r174(ctx):
@@ -257,6 +334,30 @@ def r174(ctx):
     okk = got is A2.C.canon(want) or contains(got, lambda s: s is A2.C.canon(inv))
     ctx.ob("R17.4", ri.func, None, okk, "inverse_transform maps encoder outputs back to the training labels (identity for "
            "continuous targets)", construct="inverse_transform")
+    # shape round trip: labels that were 1-d at fit time come back 1-d (reshape(-1) exactly when input_dim_ == 1)
+    raw = ri.ret
+    while raw is not None and raw.op == "assume":
+        raw = raw.args[1]
+    one_d = A2.C.canon(A2.entry(ri, "self.input_dim_ == 1"))
+
+    def _flat(x):
+        return x.op == "call" and x.args[0].op == "attr" and x.args[0].args[1] in ("reshape", "ravel", "flatten") and (
+            x.args[0].args[1] != "reshape" or (len(x.args[1]) == 1 and x.args[1][0] is const(-1)))
+    oks = raw is not None and raw.op == "ite" and (
+        (A2.C.canon(raw.args[0]) is one_d and _flat(raw.args[1]) and not _flat(raw.args[2])) or
+        (A2.C.canon(raw.args[0]) is A2.C._not(one_d) and _flat(raw.args[2]) and not _flat(raw.args[1])))
+    ctx.ob("R17.4", ri.func, None, bool(oks), "the result is flattened back to 1-d exactly when the training labels were 1-d",
+           construct="inverse_transform shape")
+    rk = A2.run(M_PRE + ":FloatTransformer._check", cls_ctx=M_PRE + ":FloatTransformer")
+    st_ = stores_attr(rk, "input_dim_")
+    okd = len(st_) == 1 and st_[0].data["value"].op == "attr" and st_[0].data["value"].args[1] == "ndim" and \
+        [A2.C.canon(l) for l in pc_literals(st_[0].pc)] == [A2.C.canon(rk.params["init"])]
+    ctx.ob("R17.4", rk.func, st_[0].node if st_ else None, okd, "input_dim_ records the dimensionality of the labels seen at fit "
+           "time (only when init is set)", construct="input_dim_ record")
+    rfit = A2.run(M_PRE + ":FloatTransformer.fit", cls_ctx=M_PRE + ":FloatTransformer")
+    ck = [e for e in rfit.events if e.kind == "call" and e.data.get("callee") == M_PRE + ":FloatTransformer._check" and e.func == rfit.func]
+    okf = len(ck) == 1 and kw(ck[0], "init") is TRUE
+    ctx.ob("R17.4", rfit.func, ck[0].node if ck else None, okf, "fit records the label dimensionality (init=True)", construct="fit records input_dim_")
 
 
 def _select(t: T, env):
